@@ -458,8 +458,12 @@ class ODataParser(Parser):
             # Very similar for CollectionLambdas:
             # We prefer the CollectionLambda to define its complete owner
             # instead of being a deeply nested attribute:
-            owner: ast.Identifier = p[1].owner
-            new_owner = ast.Attribute(p[0], owner.name)
+            owner: Union[ast.Identifier, ast.Attribute] = p[1].owner
+            if isinstance(owner, ast.Attribute):
+                # The owner is a path itself, e.g. in `a/b/c/any()`:
+                new_owner = self._reverse_attributes(ast.Attribute(p[0], owner))
+            else:
+                new_owner = ast.Attribute(p[0], owner.name)
             return ast.CollectionLambda(new_owner, p[1].operator, p[1].lambda_)
         else:
             return ast.Attribute(p[0], p[1].name)
